@@ -7,7 +7,7 @@ from engine.runner import RunnerCrash, sanitizer_signature
 ID = "C17"
 LEVEL = "fault_enumeration"
 ENGINE = "E-hyp"
-TECHNIQUE = "fault injection over archives from an independent packer: generated file sets packed in Python, then every truncation point / length-field corruption / byte flip / missing terminator / absent and empty file; oracle = faithful listing and bytes for intact archives, good()==false or only intact entries for damaged ones, sanitizers silent, allocation cap, scratch directory unchanged"
+TECHNIQUE = "fault injection over archives from an independent packer: generated file sets packed in Python, then every truncation point / length-field corruption / byte flip / missing terminator / absent and empty file; oracle = faithful listing and bytes for intact archives, good()==false or only intact entries for damaged ones, sanitizers silent, allocation cap, scratch directory unchanged; exhaustive enumeration of every truncation point and every (size field x value) of fixed archives (plus every byte flip in the thorough tier); coverage-guided libFuzzer target (runner/fuzz_pbo.cpp, invariants inside the target) whose artifacts are replayed as raw archives against a Python reference parser"
 RULE = ("cases = archive (0-8 properties, 0-10 entries with names containing backslashes/spaces/high bytes, names and property values of 120-1100 bytes around the 256/512-byte boundaries, empty and binary contents <= 4 KB, optional checksum trailer) "
         "x fault in {none, truncate at offset, set a 32-bit size/length field to 0/1/size+-1/2^31-1/2^32-1, flip one byte, drop the property or header terminator, absent file, "
         "zero-length file}; the quick tier samples faults, the thorough tier also enumerates every truncation point of small archives; non-trivial = a well-formed archive with "
@@ -217,12 +217,46 @@ def check_raw(case, env):
     return Result(nontrivial=True, labels=sorted(labs), violation=v)
 
 
+ENUM_ARCHIVES = [
+    dict(props=[["prefix", "x\\a"]], entries=[["a.sqf", "x = 1;"], ["b\\c.txt", ""]], trailer=False),
+    dict(props=[["prefix", "p"], ["version", "1"]], entries=[["n%d" % i, chr(65 + i) * (i * 5)] for i in range(4)], trailer=True),
+    dict(props=[], entries=[["only", "0123456789"]], trailer=True),
+]
+
+
+def _enumerate_faults(env, tier):
+    """fault enumeration proper: every truncation point and every (32-bit field x value) of fixed archives"""
+    out = dict(evaluations=0, nontrivial=[], labels={}, violations=[])
+    archives = ENUM_ARCHIVES if tier == "thorough" else ENUM_ARCHIVES[:1]
+    for arch in archives:
+        blob, fields, _t = pack([tuple(p) for p in arch["props"]], [(n, d.encode("latin-1")) for n, d in arch["entries"]], arch["trailer"])
+        cases = [dict(arch, fault="truncate", at=i) for i in range(len(blob))]
+        cases += [dict(arch, fault="field", field=f, value=v) for f in range(len(fields)) for v in ["0", "1", "minus1", "plus1", "2^31-1", "2^32-1", "filesize", "big"]]
+        if tier == "thorough":
+            cases += [dict(arch, fault="flip", at=i, xor=x) for i in range(len(blob)) for x in (1, 0x80, 0xFF)]
+        for case in cases:
+            try:
+                r = check(case, env)
+            except RunnerCrash as rc:
+                r = Result(nontrivial=True, labels=["crash"], violation=viol("crash|%s|%s" % (case["fault"], sanitizer_signature(rc.detail)), rc.detail[-1000:]))
+            out["evaluations"] += 1
+            out["nontrivial"].append(hashlib.sha1(repr(sorted(case.items())).encode()).hexdigest())
+            out["labels"]["enumerated_faults"] = out["labels"].get("enumerated_faults", 0) + 1
+            if r.violation is not None:
+                out["violations"].append(dict(case=case, sig=r.violation["sig"], msg=r.violation["msg"], labels=r.labels))
+    return out
+
+
 def extra(env, tier, seed, sizes):
-    """coverage-guided part (E-fuzz): libFuzzer on the reader with the invariants inside the target; every artifact is replayed as a raw case"""
+    """(1) exhaustive fault enumeration over fixed archives; (2) coverage-guided part (E-fuzz): libFuzzer on the reader with the
+    invariants inside the target; every artifact is replayed as a raw case"""
     from engine import fuzz
+    enum = _enumerate_faults(env, tier)
     secs = sizes.get("fuzz_s", 0)
     if not secs:
-        return None
+        enum["info"] = dict(enumerated_faults=enum["evaluations"])
+        enum["samples"] = []
+        return enum
     seeds = [pack([("prefix", "x\\a")], [("a.sqf", b"x = 1;"), ("b\\c.txt", b"")], False)[0], pack([], [], True)[0],
              pack([("prefix", "p"), ("version", "1")], [("n%d" % i, bytes([i]) * (i * 7)) for i in range(6)], True)[0]]
     res = fuzz.campaign("fuzz_pbo", secs, seed, seeds, os.path.join(env.scratch_dir(), "fuzz_pbo"), max_len=2048, timeout_s=10)
@@ -243,6 +277,12 @@ def extra(env, tier, seed, sizes):
             out["violations"].append(dict(case=case, sig=r.violation["sig"], msg=r.violation["msg"], labels=r.labels))
         else:
             out["labels"]["artifact_not_reproduced_in_runner"] = out["labels"].get("artifact_not_reproduced_in_runner", 0) + 1
+    out["evaluations"] += enum["evaluations"]
+    out["nontrivial"] += enum["nontrivial"]
+    out["violations"] += enum["violations"]
+    for k_, v_ in enum["labels"].items():
+        out["labels"][k_] = out["labels"].get(k_, 0) + v_
+    out["info"]["enumerated_faults"] = enum["evaluations"]
     return out
 
 
